@@ -203,7 +203,6 @@ func evalPostConcrete(p *Program, o *Obligation, fn *ssa.Function, pre, post, re
 	return verdict, why
 }
 
-func (p *Program) proveLemmas(id string, opt dischargeOpts) []*obSummary { return nil }
 
 func cmdSelftest(args []string) int { return 2 }
 
